@@ -150,10 +150,32 @@ class Property(cssutils.util.Base):
                 )
 
             if wellformed:
-                self.wellformed = True
-                self.name = nametokens
-                self.propertyValue = valuetokens
-                self.priority = prioritytokens
+                old = (
+                    self.wellformed,
+                    self._literalname,
+                    self._name,
+                    self._literalpriority,
+                    self._priority,
+                    self.seqs[:],
+                )
+                try:
+                    self.wellformed = True
+                    self.name = nametokens
+                    # a new value object, so the old one is intact if a later
+                    # part of the text is rejected
+                    self.seqs[1] = PropertyValue(parent=self)
+                    self.propertyValue = valuetokens
+                    self.priority = prioritytokens
+                except Exception:
+                    (
+                        self.wellformed,
+                        self._literalname,
+                        self._name,
+                        self._literalpriority,
+                        self._priority,
+                        self.seqs[:],
+                    ) = old
+                    raise
 
                 # also invalid values are set!
 
@@ -363,13 +385,16 @@ class Property(cssutils.util.Base):
             self._log.info('Property: Invalid priority: %s' % self._valuestr(priority))
 
         if wellformed:
+            # validate priority (before it is taken over: the error may raise)
+            if self._normalize(new['literalpriority']) not in ('', 'important'):
+                self._log.error(
+                    'Property: No CSS priority value: %s'
+                    % self._normalize(new['literalpriority'])
+                )
             self.wellformed = self.wellformed and wellformed
             self._literalpriority = new['literalpriority']
             self._priority = self._normalize(self.literalpriority)
             self.seqs[2] = newseq
-            # validate priority
-            if self._priority not in ('', 'important'):
-                self._log.error('Property: No CSS priority value: %s' % self._priority)
 
     literalpriority = property(
         lambda self: self._literalpriority,
